@@ -127,9 +127,14 @@ CHECKS = {
     "C09": {"prefixes": ["C09."],
             "assumptions": ["file-system contract: CreateTemp/Write/Close/Rename/Open are atomic operations; Rename atomically replaces; a write may be short; every OS call may fail (symbolic fault schedule)",
                             "the JSON codec is a stub: Encode writes an opaque encoding of the snapshot in 1..chunks writes, Decode succeeds iff the file holds exactly one complete encoding",
-                            "the process can die (and a reader can look) only between file-system operations; power loss without fsync is outside the property"],
+                            "the process can die (and a reader can look) only between file-system operations; power loss without fsync is outside the property",
+                            "concurrent run: two Save calls (the final save of Shutdown can overlap a save of the persist loop) as two threads, every file-system operation is a switch point, up to `preempt` preemptions; the published file must decode at the end and hold one of the two snapshots"],
             "runs": [{"pkg": S, "harness": ["harness/store"], "entry": "VerifC09Store", "quick": {"saves": 2, "chunks": 3}, "thorough": {"saves": 3, "chunks": 3},
-                      "reach": ["published", "save-ok", "save-failed", "end"]}]},
+                      "reach": ["published", "save-ok", "save-failed", "end"]},
+                     {"pkg": S, "harness": ["harness/store"], "entry": "VerifC09Concurrent", "quick": {"faults": 0, "chunks": 2}, "thorough": {"faults": 0, "chunks": 2},
+                      "quick_flags": {"preempt": 3}, "thorough_flags": {"preempt": 8}, "reach": ["both-returned", "end"]},
+                     {"pkg": S, "harness": ["harness/store"], "entry": "VerifC09Concurrent", "quick": {}, "thorough": {"faults": 1, "chunks": 2},
+                      "flags": {"preempt": 3}, "reach": ["both-returned", "end"], "thorough_only": True}]},
     "C14": {"prefixes": ["C14."],
             "assumptions": ["contract J (trusted, not executed): jwtauth.Verifier(ja) followed by jwtauth.Authenticator answers 401 and does not call the next handler unless the request carries a token that verifies under ja's algorithm and key and is currently valid (jwx: HMAC-SHA256, JSON, base64 are out of the solver's reach)",
                             "the real chi router is executed (Mux.Use/Group/Route/Mount/handle, radix tree insertion, Routes(), ChainHandler); net/http serving is not",
@@ -141,12 +146,14 @@ CHECKS = {
     "C11": {"prefixes": ["C11."],
             "assumptions": L3_ASSUME + [
                 "after a symbolic prefix of L3 events the pending activities become threads (scheduler goroutines that end on their own when scheduled or with context.Canceled once the stop was delivered; stop-delivery goroutines; in thorough a racing ScheduleAsync client); Shutdown runs on the harness thread; the forced variant cancels ctx from another thread at an arbitrary switch point",
-                "time.After(poll interval) fires once something changed since it was armed (idle-iteration elision); the persist loop and pending start timers are not threads in the registered bounds",
+                "time.After(poll interval) fires once something changed since it was armed (idle-iteration elision); the persist loop and pending start timers are not threads in VerifC11Shutdown",
+                "VerifC11Persist: concrete configuration (concurrency 1, one running and one waiting job), the REAL persist loop goroutine of NewPipelineRunner runs as a thread, the store's write is a switch point (a slow disk), graceful Shutdown on the harness thread; after Shutdown returned and every activity ended the last write to the store must hold the final state",
                 "the store is a recording stub; 'store equals final state' compares flags and start/end presence per job"],
             "runs": [step("VerifC11Shutdown", {"K": 2, "N": 2, "racer": 0}, {"K": 2, "N": 2, "racer": 0}, reach=["shutdown.graceful", "shutdown.forced", "shutdown.with-running-job", "shutdown.with-waiting-job", "end"],
                           flags={"preempt": 0}),
                      step("VerifC11Shutdown", {}, {"K": 0, "N": 1, "racer": 1, "idlepipeline": 0}, reach=["shutdown.graceful", "shutdown.forced", "racer.accepted", "end"],
-                          flags={"preempt": 0}, thorough_only=True)]},
+                          flags={"preempt": 0}, thorough_only=True),
+                     step("VerifC11Persist", {}, {}, reach=["periodic-and-final-save", "persist-interval-seen", "end"], quick_flags={"preempt": 1}, thorough_flags={"preempt": 2})]},
     "C18": {"prefixes": ["C18."],
             "assumptions": ["contract-level: checked up to the exec boundary - the list handed to expand.ListEnviron (later entries override earlier ones: mvdan/sh contract), the variables handed to the template renderer, the command text; the shell interpreter, text/template and exec are not executed",
                             "stubs: os.Environ (symbolic process environment), os.Getwd, interp.New/Run, expand.ListEnviron, syntax.Parser.Parse, utils.RenderString (identity on strings without template actions), reflect.ValueOf(x).Kind()",
